@@ -56,6 +56,23 @@ def seeds_table():
     return '\n'.join(out)
 
 
+def summary_table():
+    out = ['| id | engines | what is decided (claim text of MANIFEST.json, shortened) | explicitly not decided |', '|---|---|---|---|']
+    for pid in sorted(set(REGISTRY) | {n['property_id'] for n in NOT_APPLICABLE}):
+        if pid in REGISTRY:
+            r = REGISTRY[pid]
+            eng = 'V' + (' + K' if r.get('k') else '') + (' (+ K bounded, thorough)' if r.get('k_thorough') else '')
+            txt = r.get('level_text', '')
+            txt = txt if len(txt) <= 420 else txt[:417] + '...'
+            nc = '; '.join(r.get('not_covered', []))
+            nc = nc if len(nc) <= 300 else nc[:297] + '...'
+            out.append(f"| {pid} | {eng} | {txt} | {nc} |")
+        else:
+            reason = [n['reason'] for n in NOT_APPLICABLE if n['property_id'] == pid][0]
+            out.append(f"| {pid} | - | **not applicable** | {reason} |")
+    return '\n'.join(out)
+
+
 def benign_table():
     try:
         res = json.load(open(os.path.join(ROOT, 'benign', 'RESULTS.json')))
@@ -84,7 +101,7 @@ def benign_table():
 def main():
     p = os.path.join(ROOT, 'DESIGN.md')
     s = open(p).read()
-    for tag, fn in (('STATUS', status_table), ('SEEDS', seeds_table), ('BENIGN', benign_table)):
+    for tag, fn in (('SUMMARY', summary_table), ('STATUS', status_table), ('SEEDS', seeds_table), ('BENIGN', benign_table)):
         a, b = f'<!-- GEN:{tag} -->', f'<!-- /GEN:{tag} -->'
         if a in s and b in s:
             i, j = s.index(a) + len(a), s.index(b)
